@@ -184,5 +184,14 @@ PROPS["C20"] = {
     "note": "visible-name computation (_undotted_completions over pyscopes) and FixSyntax's retry loop are not under contract.",
     "undecided": ["internal-error freedom for all modules", "completeness of proposals for all scopes"],
 }
+PROPS["C03"] = {
+    "sidecars": ["c03_context.py", "c01_collector.py"],
+    "level": "exploration",
+    "claim": "Mostly bounded and behavioural: 16 464 extractions of statement regions are executed before and after on 9 inputs each (same results, output and "
+             "exceptions, or refused), plus fixed regions for control flow.  Deductive kernels: the analysis' conditional/loop context managers restore the enclosing "
+             "context on exit (generator contracts over try/finally) and the text edits go through the verified ChangeCollector.",
+    "note": "the data-flow collector (visitor with dozens of handlers) is not under contract; behaviour is compared on a finite input set only.",
+    "undecided": ["behavioural equivalence for all programs and inputs", "similar= matching beyond C19"],
+}
 _NB = "check not built yet (framework under construction; see DESIGN.md section 8)"
 NOT_APPLICABLE = {"C%02d" % i: _NB for i in range(1, 21)}
